@@ -290,6 +290,8 @@ struct St {
     /// handlers that must not complete any more: their id was reused after a cancellation /
     /// expiry on the premise that they never produced a response (see reuse_ok)
     no_finish: BTreeSet<u32>,
+    /// payloads of requests sent while their id was in flight (the channel must ignore them)
+    ignored_dups: BTreeSet<u32>,
     /// (id, payload, deadline_ms) of every request delivered so far
     sent_reqs: Vec<(u64, u32, i64)>,
 }
@@ -396,6 +398,7 @@ impl World {
             cancel_seq: 0,
             app_dropped: BTreeSet::new(),
             no_finish: BTreeSet::new(),
+            ignored_dups: BTreeSet::new(),
             sent_reqs: Vec::new(),
         };
         Rc::new(World {
@@ -453,7 +456,9 @@ impl World {
     /// a cancellation / expiry / application drop whose response was never written is outside it
     /// (DESIGN.md §7: a stale buffered response would be written under the new request).
     fn reuse_ok(&self, st: &St, id: u64) -> bool {
-        let earlier: Vec<&(u64, u32, i64)> = st.sent_reqs.iter().filter(|r| r.0 == id).collect();
+        // duplicates sent while the id was in flight are ignored by the channel: they neither
+        // extend nor shorten the time the id is in flight
+        let earlier: Vec<&(u64, u32, i64)> = st.sent_reqs.iter().filter(|r| r.0 == id && !st.ignored_dups.contains(&r.1)).collect();
         if earlier.is_empty() {
             return true;
         }
@@ -486,11 +491,15 @@ impl World {
 
     /// Called when a request reusing `id` is actually sent: if the reuse is only legal because the
     /// earlier handlers never produced a response, they may not complete from now on.
-    fn note_reuse(&self, st: &mut St, id: u64) {
+    fn note_reuse(&self, st: &mut St, id: u64, new_payload: u32) {
         let now = self.now_ms();
         let cancelled = st.cancels_sent.get(&id).copied().unwrap_or(0) > 0;
-        let earlier: Vec<(u64, u32, i64)> = st.sent_reqs.iter().filter(|r| r.0 == id).cloned().collect();
+        let earlier: Vec<(u64, u32, i64)> = st.sent_reqs.iter().filter(|r| r.0 == id && !st.ignored_dups.contains(&r.1)).cloned().collect();
         let in_flight = !cancelled && earlier.iter().all(|(_, p, d)| *d > now && !st.app_dropped.contains(p));
+        let answered = self.core.borrow().wire.iter().filter(|m| matches!(m, Msg::Resp { id: rid, .. } if *rid == id)).count();
+        if !earlier.is_empty() && answered < earlier.len() && in_flight {
+            st.ignored_dups.insert(new_payload);
+        }
         if !in_flight {
             for (_, p, _) in earlier {
                 if !st.finished.contains(&p) {
@@ -599,7 +608,7 @@ impl World {
                 for it in self.core.borrow().inbox.iter() {
                     if let InItem::Item(ClientMessage::Request(r)) = it {
                         for (id, p, d) in &st.sent_reqs {
-                            if *id == r.id && *p != r.message {
+                            if *id == r.id && *p != r.message && !st.ignored_dups.contains(p) {
                                 horizon = horizon.min(*d);
                             }
                         }
@@ -904,7 +913,7 @@ impl World {
                 {
                     let mut st = self.st.borrow_mut();
                     st.delivered = k + 1;
-                    self.note_reuse(&mut st, r.id);
+                    self.note_reuse(&mut st, r.id, k as u32);
                     st.sent_reqs.push((r.id, k as u32, r.deadline_ms));
                 }
                 self.log.push(Rec::M("in", m.to_msg(self.log.t0)));
@@ -914,9 +923,9 @@ impl World {
                 let p = {
                     let mut st = self.st.borrow_mut();
                     st.dups_sent.insert(id);
-                    self.note_reuse(&mut st, id);
                     let p = st.next_dup_payload;
                     st.next_dup_payload += 1;
+                    self.note_reuse(&mut st, id, p);
                     st.sent_reqs.push((id, p, self.cfg.dup_deadline_ms));
                     p
                 };
